@@ -302,17 +302,21 @@ def unevaluable_directive_stage(ctx):
                     rt = ThreadPoolRuntime(max_workers=1)
                     rt._inner.shutdown(wait=False)
                     rt._inner = W.ManualExecutor(w)
-                    fut = process_graphql_query(make(trace, False), doc, variables={"v": None}, runtime=rt, executor_cls=Executor)
-                    steps = 0
-                    while w.queue and steps < 50:
-                        e = w.queue.pop(0)
-                        steps += 1
-                        try:
-                            r = e.fn(*e.args, **e.kwargs)
-                        except BaseException as err:  # noqa
-                            e.fut.set_exception(err)
-                        else:
-                            e.fut.set_result(r)
+                    wd = W.watchdog(single_threaded=True)          # single-threaded world: a blocking wait is a deadlock
+                    with wd:
+                        fut = process_graphql_query(make(trace, False), doc, variables={"v": None}, runtime=rt, executor_cls=Executor)
+                        steps = 0
+                        while w.queue and steps < 50:
+                            e = w.queue.pop(0)
+                            steps += 1
+                            try:
+                                r = e.fn(*e.args, **e.kwargs)
+                            except BaseException as err:  # noqa
+                                e.fut.set_exception(err)
+                            else:
+                                e.fut.set_result(r)
+                    if wd.blocked:
+                        raise TimeoutError("blocks: " + wd.blocked)
                     return fut.result(timeout=0) if isinstance(fut, Future) else fut, trace
 
                 def aio():
@@ -374,7 +378,8 @@ def run(ctx):
     chk = base.Checker(ctx, "C09", extra_oracle=c09_oracle)
     rng = ctx.rng
     t_end = ctx.t0 + (26 if ctx.tier == "quick" else 220)
-    try:
+
+    def streams():
         for c in base.corpus_cases("C09"):
             ctx.stat("stream=corpus")
             chk.check(c.get("case", c), rng)
@@ -409,20 +414,37 @@ def run(ctx):
             i += 1
         ctx.extra["random_ops"] = i
         chk.flush()
-        base.history_stream(ctx, "C09")
-        base.probe_many_root_fields(ctx, "C09", kinds=("mutation",))
-        base.abandoned_stage(ctx, "C09")
-        interleaving_stage(ctx)
-        unevaluable_directive_stage(ctx)
-        base.real_pool_stage(ctx, "C09", extra_oracle=c09_oracle, n_random=4 if ctx.tier == "quick" else 30, kinds=("mutation",))
+
+    # every stage under the wall-clock backstop of C08_world.run_stages: a tree that blocks the calling thread at a place
+    # no per-call watchdog covers yields `c09:never-completes:stage:<name>` and the check still finishes
+    try:
+        W.run_stages(ctx, "C09", [
+            ("streams", streams),
+            ("history", lambda: base.history_stream(ctx, "C09")),
+            ("many-root-fields", lambda: base.probe_many_root_fields(ctx, "C09", kinds=("mutation",))),
+            ("abandoned", lambda: base.abandoned_stage(ctx, "C09")),
+            ("interleaving", lambda: interleaving_stage(ctx)),
+            ("unevaluable-directive", lambda: unevaluable_directive_stage(ctx)),
+            ("real-pool", lambda: base.real_pool_stage(ctx, "C09", extra_oracle=c09_oracle, n_random=4 if ctx.tier == "quick" else 30,
+                                                     kinds=("mutation",))),
+        ], replaying=getattr(ctx, "_c09_replay_stage", None))
     finally:
         W.close_private_loop()
+        W.release_stuck_workers(ctx)
     ctx.extra["configurations"] = list(base.CONFIGS)
     ctx.extra["all_schedules_up_to_tasks"] = chk.max_tasks_all
 
 
 def replay(ctx, data):
     W.quiet()
+    if data.get("input", {}).get("probe") == "stage":
+        before = len(ctx.found)
+        ctx._c09_replay_stage = data["input"].get("stage")
+        try:
+            run(ctx)
+        finally:
+            ctx._c09_replay_stage = None
+        return len(ctx.found) == before
     if data.get("input", {}).get("probe") == "many-root-fields":
         before = len(ctx.found)
         base.probe_many_root_fields(ctx, "C09", kinds=("mutation",))
